@@ -91,9 +91,11 @@ func Drive(p *Property, o DriveOpts) int {
 		// skip the rest instead of paying a process restart per case
 		mu.Lock()
 		stop := len(agg.Violations) > 400 || agg.Deaths > 60
+		if stop {
+			agg.Count["chunks_skipped_after_massive_failure"]++ // under the lock: workers are still absorbing
+		}
 		mu.Unlock()
 		if stop {
-			agg.Count["chunks_skipped_after_massive_failure"]++
 			continue
 		}
 		ch <- c
